@@ -94,7 +94,36 @@ pub fn run_case(g: &Graph, ops: &[ROp], perms: &[Vec<usize>]) -> String {
 
 /// the next generated graph has more than 256 identities
 pub static FORCE_LARGE: std::sync::atomic::AtomicBool = std::sync::atomic::AtomicBool::new(false);
+/// the next generated graph is one chain of this many identities, each nested in the one before (0: no)
+pub static FORCE_CHAIN: std::sync::atomic::AtomicUsize = std::sync::atomic::AtomicUsize::new(0);
+/// node k mentions node k + 1 only (the last one closes the chain with a primitive, or a cycle back to the first):
+/// registering node 0 meets every identity while the one before it is still being resolved
+fn chain_graph(r: &mut Rng, n: usize) -> Graph {
+    use scale_info::{Field, Path, Type, TypeDef, TypeDefArray, TypeDefComposite, TypeDefPrimitive, TypeDefSequence, TypeDefTuple};
+    let cyc = r.chance(1, 2);
+    let specs = (0..n)
+        .map(|k| {
+            let nx: <PortableForm as scale_info::form::Form>::Type = (if k + 1 < n { k + 1 } else { 0 } as u32).into();
+            let d: TypeDef<PortableForm> = if k + 1 == n && !cyc {
+                TypeDefPrimitive::U8.into()
+            } else {
+                match r.below(4) {
+                    0 => TypeDefSequence::new(nx).into(),
+                    1 => TypeDefArray::new(1 + r.below(3) as u32, nx).into(),
+                    2 => TypeDefTuple::new_portable(vec![nx, nx]).into(),
+                    _ => TypeDefComposite::new(vec![Field::<PortableForm>::new(Some(gen::string(r)), nx, None, vec![])]).into(),
+                }
+            };
+            Type::new(Path::from_segments_unchecked(vec![format!("L{}", k)]), vec![], d, vec![])
+        })
+        .collect();
+    Graph { specs, phantom: None }
+}
 pub fn gen_graph(r: &mut Rng, thorough: bool) -> Graph {
+    let chain = FORCE_CHAIN.swap(0, std::sync::atomic::Ordering::Relaxed);
+    if chain > 0 {
+        return chain_graph(r, chain);
+    }
     let n = match if gen::small() { 0 } else { 1 + r.below(10) } {
         0 => r.range(1, 4),
         1 => 1,
@@ -190,8 +219,15 @@ pub fn registry(r: &mut Rng, n: u64, thorough: bool, out: &mut Out) {
             // every run has two graphs with ids beyond one byte, whatever the random stream does
             FORCE_LARGE.store(true, std::sync::atomic::Ordering::Relaxed);
         }
+        // and two deep ones: 70 and 300 identities nested one inside the other
+        let chain = match case {
+            7 => 70,
+            41 => nodes::MAX_NODES - 1,
+            _ => 0,
+        };
+        FORCE_CHAIN.store(chain, std::sync::atomic::Ordering::Relaxed);
         let g = gen_graph(r, thorough);
-        let ops = gen_ops(r, g.specs.len(), thorough);
+        let ops = if chain > 0 { vec![ROp::Reg(0, 0), ROp::Reg(chain / 2, 0), ROp::Regs(vec![(chain - 1, 0), (1, 0)])] } else { gen_ops(r, g.specs.len(), thorough) };
         let roots = roots_of(&ops);
         // the roots in history order, then permutations of them
         let mut perms = vec![roots.clone()];
